@@ -478,11 +478,20 @@ def step (w : World α) : Op α → R (World α × Ret α)
       .ok ((w.put d t).put c s, .unit)
   | .addDup c i => do let (s, n) ← addDup (w.get c) i; .ok (w.put c s, .nat n)
 
-/-- run a whole history; a fault ends it -/
-def run : World α → List (Op α) → R (World α)
-  | w, [] => .ok w
+/-- run a whole history, collecting what every operation returned; a fault ends it -/
+def runR : World α → List (Op α) → R (World α × List (Ret α))
+  | w, [] => .ok (w, [])
   | w, op :: ops => do
-    let (w, _) ← step w op
-    run w ops
+    let (w, r) ← step w op
+    let (w, rs) ← runR w ops
+    .ok (w, r :: rs)
+
+/-- run a whole history; a fault ends it -/
+def run (w : World α) (ops : List (Op α)) : R (World α) := do
+  let (w, _) ← runR w ops
+  .ok w
+
+/-- states of two containers that start empty -/
+def Reachable (w : World α) : Prop := ∃ ops, run {} ops = .ok w
 
 end Morfuse.Container
